@@ -149,6 +149,9 @@ pub fn run(prop: &str, seed: u64, tier_thorough: bool, trace_path: Option<&str>,
             } else {
                 frag_sets.push(vec![65535, 2]);
                 frag_sets.push(vec![40000]);
+                if (65535..=65537).contains(&n) && kind % 2 == 0 {
+                    frag_sets.push(vec![1]); // one byte per read across the 64 KiB boundary
+                }
             }
             for (fi, frags) in frag_sets.iter().enumerate() {
                 // ---------------- .lzma, three options ----------------
@@ -257,7 +260,7 @@ pub fn run(prop: &str, seed: u64, tier_thorough: bool, trace_path: Option<&str>,
                             }
                             match parse_l2_raw(&out) {
                                 Some((lens2, resets, total)) => {
-                                    if trace.len() < 6000 {
+                                    if trace.len() < 6000 && reads.len() <= 2000 {
                                         trace.push(json!({"ev": "lzma2", "n": n, "reads": reads, "chunkLens": lens2, "resets": resets, "total": total}).to_string());
                                     }
                                 }
@@ -328,7 +331,7 @@ pub fn run(prop: &str, seed: u64, tier_thorough: bool, trace_path: Option<&str>,
                             })();
                             match parsed {
                                 Some(ev) => {
-                                    if trace.len() < 8000 {
+                                    if trace.len() < 8000 && reads.len() <= 2000 {
                                         trace.push(ev.to_string());
                                     }
                                 }
